@@ -10,6 +10,7 @@
 import Proofs.Network
 import Proofs.NetworkNFT
 import Proofs.NetworkMulti
+import Proofs.Unified
 import Proofs.Accept
 import Proofs.Ledger
 import Proofs.Hex
@@ -279,5 +280,46 @@ theorem refund_never_rejected (env : Env) (c : Call) (ctx : Ctx) (tok amt : Byte
     ∃ out ctx', esdtTransfer env c ctx = .ok (out, ctx') ∧ out.rc = 0 ∧
       ctx'.accts = ctx.accts.write c.rcv (esdtKeyPrefix ++ tok) (storedForm { t with value := some (v + (beNat amt : Int)) }) :=
   esdtTransfer_refund_accepted env c ctx tok amt hct hrae hargs hamt hval hsnd hdst hmeta hnf t v ht hty hv hv0 hlen
+
+/-! ### conservation in the ONE world that mixes all 23 functions (Proofs/Unified.lean) -/
+
+/-- steps that issue nothing: every step of the three transfer functions (user transaction, delivery, refusal, refund), and
+    calls of the functions that are neither supply operations nor pause / un-pause -/
+def Neutral : UStep → Prop
+  | .call _ f _ => supplyOpOf f = none ∧ isPauseFn f = false
+  | _ => True
+
+theorem issued_neutral (e : Env) (w : UWorld) (st : UStep) (h : Neutral st) (k : Bytes) : issued e w st k = 0 := by
+  cases st with
+  | call s f c =>
+    obtain ⟨hn, hp⟩ := h
+    simp only [issued]
+    split
+    · rfl
+    · split
+      · simp only [localDelta, hn, hp]; simp
+      · rfl
+  | ft _ => rfl
+  | nft _ => rfl
+  | multi _ => rfl
+
+/-- FULL (histories; the three transfer functions mixed with each other AND with every function that is not a supply
+    operation, on any number of shards, in any interleaving, messages delivered / refused / refunded in any order): the
+    ledger of every token key — every balance on every shard plus everything in flight, of all three message kinds — is
+    constant.  (With supply operations in the history the ledger moves by their stated amounts: C02.ledger_over_all_histories.) -/
+theorem conservation_in_mixed_world (e : Env) : ∀ (steps : List UStep) (w : UWorld), UInv e w → UStepsOK e steps w →
+    (∀ st ∈ steps, Neutral st) → ∀ k, TokKey k → usupply (urun e steps w).1 k = usupply w k := by
+  intro steps w hI hok hn k hk
+  have h := (unified_history e steps w hI hok).1 k hk
+  have hz : ∀ (steps : List UStep) (w : UWorld), (∀ st ∈ steps, Neutral st) → (urun e steps w).2 k = 0 := by
+    intro steps
+    induction steps with
+    | nil => intro _ _; rfl
+    | cons st rest ih =>
+      intro w hn
+      simp only [urun]
+      rw [issued_neutral e w st (hn st (by simp)), ih _ (fun s hs => hn s (by simp [hs]))]
+      rfl
+  rw [h, hz steps w hn]; omega
 
 end C01
